@@ -245,6 +245,8 @@ struct Model {
     answered: Vec<u32>,
     seen_tids: BTreeSet<u32>,
     active: Option<u32>,
+    /// the stream that was active before the last stop (messages for it may still be in flight)
+    last_active: Option<u32>,
     /// the statement stopped determining the state (see DESIGN.md C10 don't-cares): only
     /// state-independent clauses are judged from here on
     unspecified: bool,
@@ -318,7 +320,7 @@ pub fn eval_with(case: &Case, clock: &Clock, sink: &mut Vec<PacketRec>) -> Verdi
 }
 
 fn eval_inner(case: &Case, clock: &Clock, ex: &mut Exec, age: &mut u64) -> Verdict {
-    let mut model = Model { st: St::Disconnected, outstanding: BTreeMap::new(), answered: Vec::new(), seen_tids: BTreeSet::new(), active: None, unspecified: false, accepted_steps: 0 };
+    let mut model = Model { st: St::Disconnected, outstanding: BTreeMap::new(), answered: Vec::new(), seen_tids: BTreeSet::new(), active: None, last_active: None, unspecified: false, accepted_steps: 0 };
     let mut log: Vec<Concrete> = Vec::new();
     let mut ended_by_error = false;
     let mut traces: Vec<String> = Vec::new();
@@ -363,7 +365,8 @@ fn eval_inner(case: &Case, clock: &Clock, ex: &mut Exec, age: &mut u64) -> Verdi
         peer_ts = peer_ts.wrapping_add(11);
         let at = format!("op {} {:?} (model state {:?}{})", idx, op, model.st, if model.unspecified { ", unspecified" } else { "" });
         let other_stream = |m: &Model| m.active.map(|a| a + 3).unwrap_or(9);
-        let active_or = |m: &Model| m.active.unwrap_or(5);
+        // with no active stream, 'the active stream' means the one that was active before the stop
+        let active_or = |m: &Model| m.active.or(m.last_active).unwrap_or(5);
         let concrete = match op {
             COp::RequestConnection { app } => Concrete::RequestConnection(["live", "app/inst", "x"][*app as usize % 3].to_string()),
             COp::RequestPlayback { key } => Concrete::RequestPlayback(KEYS[*key as usize % KEYS.len()].to_string()),
@@ -523,6 +526,7 @@ fn eval_inner(case: &Case, clock: &Clock, ex: &mut Exec, age: &mut u64) -> Verdi
                     let arg = dels[0].3.iter().find_map(as_num);
                     vensure!(arg == model.active.map(|a| a as f64), "{}: deleteStream names stream {:?}, the active stream is {:?}", at, arg, model.active);
                     model.st = St::Connected;
+                    model.last_active = model.active;
                     model.active = None;
                     judged += 1;
                 } else if state_known {
